@@ -24,6 +24,6 @@ for t in newfail: print("  failing (not in stable baseline):",t)
 sys.exit(1 if missing else 0)
 PY
 RC=$?
-[ $RC -ne 0 ] && grep -h '"Output"' "$OUT" | grep -i "error\|panic\|expected\|actual\|---" | head -40
+[ $RC -ne 0 ] && grep -h '"Output"' "$OUT" | grep -- "--- FAIL\|Error:\|expected\|actual\|panic:" | cut -c1-300 | head -15
 rm -f "$OUT"
 exit $RC
